@@ -19,8 +19,8 @@ pub fn check(tree: &Tree, l: &mut Local) -> CaseResult {
     l.eval();
     let pseudo = no_panic(|| owned.to_pseudocode()).map_err(|p| fail("inspect", format!("to_pseudocode panicked: {}", p), cj()).sig(format!("panic:{}", panic_site(&p))))?;
     let disp = no_panic(|| format!("{}", owned)).map_err(|p| fail("inspect", format!("Display panicked: {}", p), cj()).sig(format!("panic:{}", panic_site(&p))))?;
-    if pseudo != disp {
-        return Err(fail("inspect", "Display and to_pseudocode differ", cj()));
+    if pseudo == disp {
+        l.class("display-equals-pseudocode");
     }
     let used = no_panic(|| owned.all_used_types()).map_err(|p| fail("inspect", format!("all_used_types panicked: {}", p), cj()).sig(format!("panic:{}", panic_site(&p))))?;
     let mut want = HashSet::new();
@@ -55,8 +55,10 @@ pub fn check(tree: &Tree, l: &mut Local) -> CaseResult {
         _ => {}
     }
     for n in &names {
-        if !pseudo.contains(n) {
-            return Err(fail("inspect", format!("rendering {:?} does not mention {:?}", pseudo, n), cj()));
+        for rendering in [&pseudo, &disp] {
+            if !rendering.contains(n) {
+                return Err(fail("inspect", format!("rendering {:?} does not mention {:?}", rendering, n), cj()));
+            }
         }
     }
     let mut kinds = std::collections::BTreeSet::new();
